@@ -7,7 +7,7 @@ PROPERTY = 'C14'
 LEVEL = 'exploration'
 BUDGET = {'quick': 50, 'thorough': 500}
 SHARDS = {'quick': 8, 'thorough': 16}
-RULE = ('cases: (matrix) Matrix.solve on generated systems n<=8 (well/ill conditioned, exactly singular, non-symmetric, SPD, complex), right-hand sides (vector, multi-column, zero), lhs0, '
+RULE = ('cases: (constraints) System.solve_constraints on generated symmetric and two-argument linear systems with dropped columns: NaN exactly where the column is below droptol, the other entries solve the subsystem; (matrix) Matrix.solve on generated systems n<=8 (well/ill conditioned, exactly singular, non-symmetric, SPD, complex), right-hand sides (vector, multi-column, zero), lhs0, '
         'bool/NaN-float constrain and rconstrain patterns, atol/rtol in {0,1e-12..1e-2}, every solver/preconditioner of the numpy and scipy backends; (system) solver.System on generated '
         'residual vectors / functionals r(u)=A u - b + c u^3 + d exp(u) + e log(u) (linear and nonlinear, incl. ones that become non-finite or have no solution), constraints, initial guesses, '
         'methods Direct/Newton/ReuseNewton/LinesearchNewton(NormBased|MedianBased)/Minimize/Arnoldi, tol/miniter/maxiter, the legacy wrappers solve_linear/newton/minimize/optimize, '
@@ -53,6 +53,9 @@ def matrix_cases(draw, tier):
     cmask = [draw(st.booleans()) for _ in range(n)]
     rmask = draw(st.permutations(cmask))
     again = [list(draw(st.permutations(cmask))) for _ in range(draw(st.sampled_from([0, 0, 1, 2])))]    # further solves on the same Matrix object: same number of constraints elsewhere
+    if cons == 'bool+rcons' and draw(st.booleans()):
+        # after a solve with different free rows and free columns, a square solve whose free set is that of the rows (or of the columns): the matrix object keeps a submatrix cache
+        again.insert(0, dict(cons='bool', cmask=list(rmask) if draw(st.booleans()) else list(cmask)))
     cvals = [draw(st.sampled_from(V)) for _ in range(n)]
     lhs0 = [draw(st.sampled_from(V)) for _ in range(n)] if draw(st.booleans()) else None
     tol = draw(st.sampled_from([[0, 0], [0, 0], [1e-12, 0], [0, 1e-10], [1e-8, 0], [1e-2, 0], [0, 1e-3], [1e-10, 1e-6]]))
@@ -97,6 +100,10 @@ def check_matrix(case, rec):
     _check_matrix_one(case, rec, holder)
     if case['cons'] in ('bool', 'nan', 'bool+rcons') and 'M' in holder:
         for k, cm in enumerate(case.get('again', [])):
+            if isinstance(cm, dict):
+                rec.label('square-resolve-after-rconstrain')
+                _check_matrix_one(dict(case, **cm), rec, holder)
+                continue
             if cm != case['cmask']: rec.label('resolve-with-moved-constraints')
             _check_matrix_one(dict(case, cmask=cm), rec, holder)
 
@@ -603,11 +610,66 @@ def check_project(case, rec):
     rec.label('project:steps=%d' % len(case['steps']), *('project:' + s_['ptype'] for s_ in case['steps']), *(['project:zero-after-nonzero'] if any(a['f'] in ('one', 'linear', 'x') and b['f'].startswith('zero') for a, b in zip(case['steps'], case['steps'][1:])) else []))
 
 
+
+# ---- System.solve_constraints: which entries are determined, and by what -------------------------------------------------------
+
+@st.composite
+def constraints_cases(draw, tier):
+    n = draw(st.integers(2, 5))
+    diag = [draw(st.sampled_from([1., 2., -1.5, 3.])) for _ in range(n)]
+    off = [[draw(st.sampled_from([0., 0., .25, -.5, .125])) for _ in range(n)] for _ in range(n)]
+    dropped = sorted({draw(st.integers(0, n - 1)) for _ in range(draw(st.integers(0, n - 1)))})
+    eps, droptol = draw(st.sampled_from([(0., 0.), (0., 1e-10), (1e-13, 1e-10), (1e-14, 1e-12), (1e-11, 1e-9)]))
+    return dict(n=n, diag=diag, off=off, dropped=dropped, eps=eps, droptol=droptol, b=[draw(st.sampled_from(V)) for _ in range(n)], symmetric=draw(st.booleans()),
+                guess=[draw(st.sampled_from(V)) for _ in range(n)] if draw(st.booleans()) else None, backend=draw(st.sampled_from(['numpy', 'scipy'])))
+
+
+def check_constraints(case, rec):
+    from nutils import function, solver, matrix
+    n = case['n']
+    A = numpy.array(case['off'], dtype=float)
+    if case['symmetric']: A = .5 * (A + A.T)
+    A[numpy.arange(n), numpy.arange(n)] = numpy.array(case['diag']) * (1 + abs(A).sum(1))      # dominant diagonal: every principal subsystem is regular
+    if case['symmetric']: A = .5 * (A + A.T) + numpy.diag(abs(A).sum(1) * numpy.sign(case['diag']))
+    for j in case['dropped']:
+        A[:, j] = case['eps']      # unknown j is felt by the equations at most through entries of size eps <= droptol
+        if case['symmetric']: A[j, :] = case['eps']
+    b = numpy.array(case['b'], dtype=float)
+    u = function.Argument('u', (n,))
+    be = case['backend'] if case['backend'] in get_backends() else 'numpy'
+    with warnings.catch_warnings(), matrix.backend(be):
+        warnings.simplefilter('ignore')
+        if case['symmetric']:
+            system = solver.System(.5 * (u @ (function.Array.cast(A) @ u)) - b @ u, trial='u')
+        else:
+            v = function.Argument('v', (n,))
+            system = solver.System(v @ (function.Array.cast(A) @ u - b), trial='u', test='v')
+        if not system.is_linear:
+            raise Violation('constraints-linearity', f'a linear system (n={n}) is not recognised as linear', where='constraints:is_linear')
+        descr = f'solve_constraints(droptol={case["droptol"]}) of the {"symmetric" if case["symmetric"] else "two-argument"} system with matrix {A.tolist()} rhs {b.tolist()} guess {case["guess"]}'
+        kw = dict(arguments={'u': numpy.array(case['guess'], dtype=float)}) if case['guess'] is not None else {}
+        try:
+            cons = system.solve_constraints(droptol=case['droptol'], **kw)
+        except Exception as e:
+            raise Violation('constraints-raised', f'{descr}: {type(e).__name__}: {str(e)[:200]} (every subsystem of the determined unknowns is regular)', where='constraints:raised:' + type(e).__name__)
+    c = numpy.asarray(cons['u'], dtype=float)
+    free = abs(A).max(0) > case['droptol']
+    if (numpy.isnan(c) != ~free).any():
+        raise Violation('constraints-pattern', f'{descr}: returned {c.tolist()}; the unknowns whose column exceeds the drop tolerance are {numpy.nonzero(free)[0].tolist()}: exactly the others are to be NaN', where='constraints:pattern')
+    if free.any():
+        want = numpy.linalg.solve(A[numpy.ix_(free, free)], b[free])
+        if not numpy.allclose(c[free], want, rtol=1e-8, atol=1e-8 * (1 + abs(want).max())):
+            raise Violation('constraints-value', f'{descr}: determined entries {c[free].tolist()}, the subsystem of the determined unknowns gives {want.tolist()}', where='constraints:value')
+    rec.nontrivial = bool(case['dropped']) and bool(free.any())
+    rec.label('constraints:' + ('symmetric' if case['symmetric'] else 'two-argument'), 'constraints-dropped:%d' % len(case['dropped']), 'constraints-eps:%g' % case['eps'], *(['constraints:guess'] if case['guess'] is not None else []))
+
+
 SUBS = [Sub('matrix', matrix_cases, check_matrix, {'quick': 2500, 'thorough': 40000}, weight=3),
         Sub('system', system_cases, check_system, {'quick': 150, 'thorough': 3000}, weight=3, timeout=120),
         Sub('step', step_cases, check_step, {'quick': 120, 'thorough': 2000}, weight=1, timeout=120),
         Sub('coupled', coupled_cases, check_coupled, {'quick': 100, 'thorough': 2000}, weight=1, timeout=120),
-        Sub('project', project_cases, check_project, {'quick': 60, 'thorough': 1200}, weight=1, timeout=120)]
+        Sub('project', project_cases, check_project, {'quick': 60, 'thorough': 1200}, weight=1, timeout=120),
+        Sub('constraints', constraints_cases, check_constraints, {'quick': 150, 'thorough': 3000}, weight=1, timeout=120)]
 
 def _uncertified_zero_tol(case, v):
     # atol=rtol=0 with the (default) arnoldi solver: the iterate at which the iteration stagnated is returned unchecked
